@@ -221,7 +221,9 @@ def run_config_symbolic(pid, cfg, tier, seed):
         if getattr(mod, 'EXPLORE', False) or cfg.get('explore'):
             # path exploration: the harness is re-executed per path; assumptions come from a dry pre-pass
             ex = explore.Explorer(assume=[], max_paths=cfg.get('max_paths', 4000),
-                                  max_depth=cfg.get('max_depth', 400), fork_where=cfg.get('fork_where', False))
+                                  max_depth=cfg.get('max_depth', 400), fork_where=cfg.get('fork_where', False),
+                                  timeout_ms=cfg.get('feas_timeout_ms', 10000),
+                                  feasibility=not cfg.get('no_feasibility', False))
 
             def fn():
                 B = Backend(True, fd=fd)
@@ -255,13 +257,17 @@ def run_config_symbolic(pid, cfg, tier, seed):
                     rec['notes'].append(n)
             A = assume + side + pc
             # non-vacuity witness for this case
-            wit = prove.witness(A, B.sampler(seed), tries=300, roots=[o.goal() for o in case.obs[:40]])
+            wit = prove.witness(A, B.sampler(seed), tries=200, roots=[o.goal() for o in case.obs[:40]])
             if wit is None:
-                r, env = prove.satisfiable(A, 10000)
+                r, env = prove.satisfiable(A, 2000)
                 wit_status = {'sat': 'solver-sat', 'unsat': 'VACUOUS', 'unknown': 'unknown'}[r]
+                if wit_status == 'VACUOUS' and path is not None and cfg.get('no_feasibility'):
+                    wit_status = 'infeasible-path'      # explored without feasibility pruning: nothing to prove here
             else:
                 wit_status = 'sampled'
             rec.setdefault('witness', []).append(wit_status)
+            if wit_status == 'infeasible-path':
+                continue
             for o in case.obs:
                 orec = discharge(mod, pid, cfg, o, A, B, timeout_ms, seed, path)
                 rec['obligations'].append(orec)
